@@ -167,3 +167,7 @@ def f_ip_address(it, address):
         it.ex.assume(z3.And(val >= 0, val < TWO128))
         return mk_ip_obj(it, 6, val)
     it.raise_(ValueError, "does not appear to be an IPv4 or IPv6 address")
+
+
+UF_ORACLES.setdefault("lower", lambda s: s.lower())
+UF_ORACLES.setdefault("upper", lambda s: s.upper())
